@@ -1,12 +1,11 @@
-import Lattigo.Proofs.ModRed
-/-! # C01 — RNS ring arithmetic equals exact arithmetic in Z_Q[X]/(X^N+1)  (property theorems) -/
-namespace Lattigo.Props.C01
-open Lattigo Lattigo.Gen
+import Lattigo.Props.C01Words
+/-!
+# C01 — RNS ring arithmetic equals exact arithmetic in Z_Q[X]/(X^N+1)
 
-/-- `MRedLazy` (regenerated from ring/modular_reduction.go): exact Montgomery equation, lazy range. -/
-theorem MRedLazy_eq (x y q qinv : Nat) (hq : 2 * q ≤ W) (hm : MontConst q qinv) (hxy : x * y < q * W) :
-    MRedLazy x y q qinv * W + ((x * y) % W * qinv % W) * q = x * y + q * W
-    ∧ MRedLazy x y q qinv < 2 * q ∧ 0 < MRedLazy x y q qinv :=
-  Lattigo.MRedLazy_eq x y q qinv hq hm hxy
-
-end Lattigo.Props.C01
+Property theorems live in
+* `Lattigo.Props.C01Words` — word level (Montgomery/Barrett reductions, butterflies) and the 38
+  lane kernels, all about the definitions REGENERATED from /repo/ring by tools/go2lean;
+* `Lattigo.Props.C01NTT` — range invariant and semantics of the lazy NTT model (when present it is
+  imported below).
+This module collects them so that `lake build Lattigo.Props.C01` checks all of C01.
+-/
